@@ -10,6 +10,7 @@
 //! with the model (time, allocation) but are visible to the monitors.
 mod alloc;
 mod c01;
+mod c03;
 mod c11;
 mod c08;
 mod c16;
@@ -26,6 +27,7 @@ mod c13;
 mod c12;
 mod c07;
 mod c17;
+mod c14;
 mod scen;
 mod wirefmt;
 mod util;
@@ -59,6 +61,9 @@ pub fn exec_line(line: &str) -> Option<String> {
     }
     if matches!(op, "if-match" | "select" | "resolve-addr" | "select-at" | "valid-ip" | "addrs-on-intf") {
         return c18::exec(op, &mut t);
+    }
+    if op == "stress-shutdown" {
+        return c14::exec(op, &mut t);
     }
     if op == "backoff" {
         return c19b::exec(op, &mut t);
@@ -110,10 +115,12 @@ fn main() {
                         c19::generate(&mut rng, &tier, &mut emit);
                     }
                     "C13" => c13::generate(&mut rng, &tier, &mut emit),
+                    "C03" | "C04" | "C05" => c03::generate(&mut rng, &prop, &tier, &mut emit),
                     "C12" => c12::generate(&mut rng, &tier, &mut emit),
                     "C07" => c07::generate_c07(&mut rng, &tier, &mut emit),
                     "C09" => c07::generate_c09(&mut rng, &tier, &mut emit),
                     "C06" => c07::generate_c06(&mut rng, &tier, &mut emit),
+                    "C14" => c14::generate(&mut rng, &tier, &mut emit),
                     "C17" => c17::generate_c17(&mut rng, &tier, &mut emit),
                     "C20" => c17::generate_c20(&mut rng, &tier, &mut emit),
                     "C08" => c08::generate(&mut rng, &tier, &mut emit),
